@@ -8,6 +8,10 @@ mod c20;
 mod c06;
 mod tiny;
 mod c14;
+mod ctx;
+mod md;
+mod live;
+mod c15;
 
 fn main() {
     let argv: Vec<String> = std::env::args().collect();
@@ -23,6 +27,9 @@ fn main() {
         "c06" => c06::run(&a),
         "c14mut" => c14::run_mut(&a),
         "c14files" => c14::run_files(&a),
+        "ctxuc" => ctx::run_ucontext(&a),
+        "ctxpt" => ctx::run_ptrace(&a),
+        "c15" => c15::run(&a),
         x => { eprintln!("unknown subcommand {x}"); std::process::exit(2); }
     }
 }
